@@ -1017,18 +1017,20 @@ func buildOps(cfg config, quick bool) []opDef {
 					return result{cls: "ok"}
 				}})
 		}
-		k := k
-		add(opDef{name: "SetRelativateExpiry(" + k + ",10)", kind: "SetRelativateExpiry", mutates: true, needClean: true,
-			run: func(x *exec) result { return errResult(x.iface.SetRelativateExpiry(x.full(k), 10)) },
-			ref: func(m *model) result {
-				e := m.visible(k)
-				if e == nil {
-					return result{cls: "notfound"}
-				}
-				e.m.update(m.now)
-				e.m.D = -10
-				return result{cls: "ok"}
-			}})
+		for _, ttl := range []int64{10, 0} { // 0 switches a relative expiry off (record/meta.go: seconds >= 0)
+			k, ttl := k, ttl
+			add(opDef{name: fmt.Sprintf("SetRelativateExpiry(%s,%d)", k, ttl), kind: "SetRelativateExpiry", mutates: true, needClean: true,
+				run: func(x *exec) result { return errResult(x.iface.SetRelativateExpiry(x.full(k), ttl)) },
+				ref: func(m *model) result {
+					e := m.visible(k)
+					if e == nil {
+						return result{cls: "notfound"}
+					}
+					e.m.update(m.now)
+					e.m.D = -ttl
+					return result{cls: "ok"}
+				}})
+		}
 	}
 	// --- PutMany: batches of two, one of them a deleted record
 	batches := [][]batchItem{
@@ -1864,10 +1866,10 @@ func main() {
 		}
 
 		c.Rule("breadth-first search over histories of database.Interface operations on the real code, per configuration backend {hashmap,bbolt,fstree; thorough: badger} x shadow-delete {off,on} x cache {none, read cache size 2, delayed write cache size 2 (hashmap, bbolt)} and per initial state: 5 storage contents (empty, one live, one shadow-deleted, one expired record, one with a relative expiry) and, behind a cache, 3 non-initial interface states reached by a fixed prefix run through the interface under test (three puts of which the oldest was evicted; a put plus a cached get of another key; a cache full of read entries); " +
-			"alphabet per configuration: Get, Put (typed struct / wrapped JSON twins, 2 contents), PutNew (record object with stale metadata: old+expired / deleted before / relative TTL / expiring later), Resave (Get then Put of the same object), Renew (Get, Delete, then PutNew of the object obtained by Get), PutAgain (Put again the record object the caller put last under the key; object identity across maintenance, time and caches), Delete, SetAbsoluteExpiry (past, +10 s), SetRelativateExpiry(10), PutMany (2 batches of two records, one deleted), Purge (2 queries), 10 s / 20 s pass on the manual clock, MaintainRecordStates (threshold now / now-15 s), Maintain, FlushCache and Flush = one DelayedCacheWriter run ended by its context (delayed writes only), Put of an already deleted record over 4 keys sharing prefixes and a path separator; " +
+			"alphabet per configuration: Get, Put (typed struct / wrapped JSON twins, 2 contents), PutNew (record object with stale metadata: old+expired / deleted before / relative TTL / expiring later), Resave (Get then Put of the same object), Renew (Get, Delete, then PutNew of the object obtained by Get), PutAgain (Put again the record object the caller put last under the key; object identity across maintenance, time and caches), Delete, SetAbsoluteExpiry (past, +10 s), SetRelativateExpiry (10 s; 0 = switch the relative expiry off), PutMany (2 batches of two records, one deleted), Purge (2 queries), 10 s / 20 s pass on the manual clock, MaintainRecordStates (threshold now / now-15 s), Maintain, FlushCache and Flush = one DelayedCacheWriter run ended by its context (delayed writes only), Put of an already deleted record over 4 keys sharing prefixes and a path separator; " +
 			"every history runs on a wiped database through a fresh Interface and on a map[string]entry model; after the last step Exists+Get of all 4 keys (cached keys first, so that the probe's own cache misses cannot evict a stale entry unseen) and 19 queries (5 key prefixes; all 18 operators; and/or/not nested to depth 2) are compared; states de-duplicated on (model, raw storage dump, ARC cache lists and entries, delayed write set); " +
 			"non-trivial = distinct reached states holding at least two records or at least one deleted/expired record. " +
-			"Plus two scenario families: bulk (N records in mixed states, N around bbolt's purge batch size 1000 and up to several B+tree pages, then Purge by prefix / by condition or MaintainRecordStates, compared with the model) storage-error (a query that meets an unreadable raw record must end its stream and report through Iterator.Err()) and condition (input enumeration: every operator x operand values x field values at the numeric boundaries 0, +-1, 2^31, 2^53-1, 2^53, 2^53+1, MaxInt64-1, MaxInt64, MinInt64, MinInt64+1, floats incl. non-integers and 1e300, strings incl. empty/unicode/escapes, bools in all accepted spellings, string lists incl. empty, plus Not of every leaf and And/Or pairs, evaluated on a typed record and on its marshalled-and-reloaded twin against a reference evaluator of the README operator table). Scenario put-during-flush (hashmap, bbolt): a storage type registered by the harness wraps the real storage and calls back when a flush's batch hands over its first record; if the delayed write set's lock is free at that moment the harness puts (same key / another key) right there, otherwise right after the flush (a concurrent put could only wait); after one more flush the storage must hold the newest put. The outcome class evicted-pending-write counts the delayed writes that a step pushed out of the cache")
+			"Plus two scenario families: bulk (N records in mixed states, N around bbolt's purge batch size 1000 and up to several B+tree pages, then Purge by prefix / by condition or MaintainRecordStates, compared with the model) storage-error (a query that meets an unreadable raw record must end its stream and report through Iterator.Err()) and condition (input enumeration: every operator x operand values x field values at the numeric boundaries 0, +-1, 2^31, 2^53-1, 2^53, 2^53+1, MaxInt64-1, MaxInt64, MinInt64, MinInt64+1, floats incl. non-integers and 1e300, strings incl. empty/unicode/escapes, bools in all accepted spellings, string lists incl. empty, plus Not of every leaf and And/Or pairs, evaluated on a typed record and on its marshalled-and-reloaded twin against a reference evaluator of the README operator table). Scenario long-history (every backend x delete mode x cache none / read cache of 256 entries): one scripted history of 48 (thorough 200) puts, overwrites and deletes of other keys with growing value sizes and keys sorting before, between and after three records that were stored beforehand and are never written; after every step these three, the key just written and an earlier key are read back (through the cache, if any) and compared with the model, at the end the query for everything. Scenario put-during-flush (hashmap, bbolt): a storage type registered by the harness wraps the real storage and calls back when a flush's batch hands over its first record; if the delayed write set's lock is free at that moment the harness puts (same key / another key) right there, otherwise right after the flush (a concurrent put could only wait); after one more flush the storage must hold the newest put. The outcome class evicted-pending-write counts the delayed writes that a step pushed out of the cache")
 		c.Assume("operators applied to a field of another type (float operators on an integer field, integer operators on a float or string field, string operators on an integer field) are outside the README operator table; there the struct and the JSON accessor visibly differ (e.g. GetFloat of an integer field: struct refuses, JSON converts), so these cases are evaluated and counted (outcome classes cross-type:*) but not asserted")
 		c.Assume("metadata semantics are those documented in record/meta.go: a save stamps Modified (and Created if unset) and recomputes Expires from a relative TTL; a TTL set through Interface.SetRelativateExpiry therefore takes effect at the next save (not asserted otherwise); a record is expired when now > Expires")
 		c.Assume("a backend that does not implement Purge / PutMany and answers ErrNotImplemented is taken as 'operation not offered' (no effect in the model); the count returned by Purge may or may not include expired records that were not yet deleted")
